@@ -1,8 +1,21 @@
-(* C10 -- function activations and closures do not interfere.  (static half, placeholder until the
-   scoping theorem is proved) *)
+(* C10 -- function activations and closures do not interfere: the static half.
+   Pinned statements only. *)
 From Coq Require Import String List NArith ZArith Bool.
-From Sylt Require Import Syntax.Resolved Back.IR Back.Emit Back.Scope.
+From Sylt Require Import Syntax.Resolved Back.IR Back.Emit Back.Scope Back.RScope Back.ScopeProofs.
 Import ListNotations.
+
+(* For every resolved program (any fuel) that is lexically scoped at the level of the resolved AST
+   (RScope.rs_resolved: every variable is read or assigned only where a definition, parameter, case
+   binding or global of the enclosing blocks makes it visible, in initialisation order) the flat IR
+   produced by the lowering satisfies the scoping discipline of Back/Scope.v: every variable -- user
+   variable or compiler temporary -- that an instruction reads or assigns was introduced before, in an
+   enclosing block of the emitted Lua, by an instruction the generator turns into a `local`, a
+   parameter or a top-level external; assignment targets are real locals, never inlinable
+   temporaries; blocks are balanced.  Hence no temporary is a Lua global: each activation (and each
+   loop iteration) gets its own. *)
+Theorem C10_lower_scoped : forall (fuel : nat) (r : resolved) (code : list ir),
+  rs_resolved fuel r = true -> lower fuel r = Ok code -> ir_scoped code = true.
+Proof. exact lower_scoped. Qed.
 
 (* Non-vacuity of the checker: a chunk whose if-expression result is assigned without having been
    introduced is rejected, the same chunk with the introduction is accepted. *)
@@ -12,3 +25,27 @@ Proof. vm_compute. reflexivity. Qed.
 Example C10_checker_accepts_local_temp :
   ir_scoped [IDefine 7; IBool 5 true; IIf 5; IInt 6 10%Z; IAssign 7 6; IEnd]%N = true.
 Proof. vm_compute. reflexivity. Qed.
+
+(* Non-vacuity of the theorem: a recursive function holding an if-expression across the recursive
+   call satisfies the hypothesis and lowers successfully. *)
+Definition sp0 := mkSpan 0 1 1 1 1.
+Definition ex_prog : resolved :=
+  mkResolved
+    [mkVar 0 "f" sp0 true Const; mkVar 1 "start" sp0 true Const; mkVar 2 "n" sp0 false Const]
+    [SDefinition "f" 0 Const (TImplied sp0)
+       (EFunction "lambda" [("n"%string, 2%N, sp0, TImplied sp0)] (TImplied sp0)
+          [SStatementExpression
+             (EBinOp Add
+                (EIf [IfBranch (Some (EBinOp Greater (ERead 2 sp0) (EInt 1 sp0) sp0))
+                               [SStatementExpression (EInt 10 sp0) sp0] sp0;
+                      IfBranch None [SStatementExpression (EInt 20 sp0) sp0] sp0] sp0)
+                (ECall (ERead 0 sp0) [EBinOp Sub (ERead 2 sp0) (EInt 1 sp0) sp0] sp0) sp0) sp0]
+          false sp0) sp0;
+     SDefinition "start" 1 Const (TImplied sp0)
+       (EFunction "lambda" [] (TImplied sp0)
+          [SStatementExpression (ECall (ERead 0 sp0) [EInt 3 sp0] sp0) sp0] false sp0) sp0].
+Example C10_example_hypotheses :
+  rs_resolved 20 ex_prog = true /\ (exists code, lower 20 ex_prog = Ok code).
+Proof. split; [vm_compute; reflexivity|eexists; vm_compute; reflexivity]. Qed.
+
+Print Assumptions C10_lower_scoped.
